@@ -25,15 +25,23 @@ def cls_of(mod):
     return mod.split(".")[-1]
 
 
-def gen_content(rng, own_mod, pool, wild):
-    """A module text.  `own_mod` decides the class it defines (files keep their text when moved).
-    Returns (text, kind)."""
+def gen_content(rng, own_mod, pool, wild, focus=False):
+    """A module text.  `own_mod` decides the class/interface it defines (files keep their text when moved).
+    `focus`: the "nonlocal" stream — modules whose diagnostics are (also) reported while checking ANOTHER module
+    (an interface whose supertype is a class: every class/interface that extends it re-reports the error at the
+    interface's own location; cyclic / chained interface hierarchies; bounded type parameters), with a second
+    unrelated diagnostic in the same module, and importers that come and go.  Returns (text, kind)."""
     K = cls_of(own_mod)
     others = [m for m in pool if m != own_mod]
-    kind = rng.weighted([("leaf", 22), ("leafstr", 10), ("user", 26), ("passer", 14), ("iface", 6),
-                         ("impl", 6), ("illtyped", 8), ("noclass", 6), ("selfimp", 3), ("cyc_iface", 4),
-                         ("generic", 4), ("missing_export", 4)] +
-                        ([("unparsable", 14), ("unparsable2", 6)] if wild else []))
+    if focus:
+        kind = rng.weighted([("lib_iface_class", 26), ("impl", 20), ("cyc_iface", 16), ("bounded", 6), ("leaf", 10),
+                             ("iface", 4), ("user", 6), ("noclass", 8), ("illtyped", 4)] +
+                            ([("unparsable", 6)] if wild else []))
+    else:
+        kind = rng.weighted([("leaf", 22), ("leafstr", 10), ("user", 26), ("passer", 14), ("iface", 6),
+                             ("impl", 6), ("illtyped", 8), ("noclass", 6), ("selfimp", 3), ("cyc_iface", 4),
+                             ("generic", 4), ("missing_export", 4), ("lib_iface_class", 4), ("bounded", 2)] +
+                            ([("unparsable", 14), ("unparsable2", 6)] if wild else []))
     dep = rng.pick(others) if others else own_mod
     dep2 = rng.pick(others) if others else own_mod
     D, D2 = cls_of(dep), cls_of(dep2)
@@ -50,6 +58,14 @@ def gen_content(rng, own_mod, pool, wild):
              f"function pass(): {D} = {D}.mk() function deep(): int = {D2}.pass().get() }}")
     elif kind == "iface":
         t = f"interface {K} {{ method get(): int }}"
+    elif kind == "lib_iface_class":
+        # the interface other modules extend has a CLASS as supertype: ill-typed here, and re-reported (at this
+        # module's location) by the check of every module that extends {K}
+        t = (f"class {K}Base(val v: int) {{ function mk(): {K}Base = {K}Base.init(0) }}\n"
+             f"interface {K} : {K}Base {{ method get(): int }}")
+    elif kind == "bounded":
+        t = (f"import {{ {D} }} from {dep}\nclass {K}(val v: int) {{ function mk(): {K} = {K}.init(0) "
+             f"method get(): int = this.v function <T : {D}> same(t: T): T = t }}")
     elif kind == "impl":
         t = (f"import {{ {D} }} from {dep}\nclass {K}(val v: int) : {D} {{ function mk(): {K} = {K}.init(0) "
              f"method get(): int = this.v }}")
@@ -74,6 +90,10 @@ def gen_content(rng, own_mod, pool, wild):
              f"method get(): int = this.v function broken(): int = }}")
     else:
         t = f"class {K}(val v: int) {{ function mk(): {K} = {K}.init(0) method get(): int = this.v \nclass }}{{ ( "
+    if has_toplevel(t) and kind not in ("unparsable", "unparsable2") and rng.chance(1, 2 if focus else 8):
+        # a second, unrelated diagnostic in the same module (lost if the module's entry is overwritten by what the
+        # check of ANOTHER module reported into it)
+        t += f"\nclass {K}Extra {{ function bad(): int = \"e{rng.below(2)}\" }}"
     return t, kind
 
 
@@ -110,9 +130,13 @@ def has_toplevel(text):
     return "class " in text or "interface " in text
 
 
-def gen_history(rng, nops, wild):
-    h = Hist("wild" if wild else "clean")
-    pool = NAMES[:rng.range(2, len(NAMES))]
+def gen_history(rng, nops, wild, focus=False):
+    h = Hist("nonlocal" if focus else ("wild" if wild else "clean"))
+    pool = NAMES[:rng.range(2, 4 if focus else len(NAMES))]
+    _gc = globals()["gen_content"]
+
+    def gen_content(r, m, pl, w):
+        return _gc(r, m, pl, w, focus)
     files = {}
     for m in pool:
         if rng.chance(3, 4):
@@ -475,7 +499,7 @@ OUTSIDE = "!"
 
 
 def build_cli():
-    with common.Lock("cargo"):
+    with common.Lock("cargo-cli"):
         rc, out = common.sh(["cargo", "build", "--offline", "-p", "samlang-cli", "--target-dir", CLI_TARGET],
                             cwd=common.REPO, timeout=1800)
     if rc != 0:
@@ -848,7 +872,7 @@ def find_oracle_failure(ctx, tb, label):
     with the shrunk concrete history if one is found that matches no open finding."""
     rng = ctx.rng.fork()
     for _ in range(ctx.scale(4, 20)):
-        hs = [gen_history(rng.fork(), rng.range(2, 10), rng.chance(1, 2)) for _ in range(150)]
+        hs = [gen_history(rng.fork(), rng.range(2, 10), rng.chance(1, 2), rng.chance(1, 2)) for _ in range(150)]
         for h, (orc, _) in zip(hs, run_hists(tb, hs, with_model=False)):
             if orc and classify(tb, h) is None:
                 small = shrink(tb, h, lambda g: bool(run_hists(tb, [g], with_model=False)[0][0]))
@@ -906,11 +930,22 @@ def run(ctx):
         # proof broken: look for a concrete failing history in the theorem's own regime
         return find_oracle_failure(ctx, tb, "search after broken proof")
 
+    # the LSP binary is built in its own target directory: build it concurrently with the harness / Lean builds
+    import threading
+    cli = {}
+
+    def _build_cli():
+        try:
+            cli["bin"] = build_cli()
+        except common.BuildError as e:
+            cli["err"] = e
+    cli_thread = threading.Thread(target=_build_cli, daemon=True)
+    cli_thread.start()
     res = common.proof_gate(ctx, search)
     if any(v[1] for v in ctx.violations) and not os.path.exists(common.driver_bin(PROP)):
         return ctx.finish(res, trusted=common.TRUSTED_COMMON)
     rng = ctx.rng
-    stats = {"histories": 0, "ops": 0, "clean": 0, "wild": 0, "op_kinds": {}, "nontrivial": 0,
+    stats = {"histories": 0, "ops": 0, "clean": 0, "wild": 0, "nonlocal": 0, "op_kinds": {}, "nontrivial": 0,
              "recheck_partial": 0, "oracle_known": 0}
     samples = []
     # 1. corpus
@@ -929,7 +964,7 @@ def run(ctx):
             if handle_failure(ctx, tb, h, orc, tie, h.regime):
                 stats["oracle_known"] += 1
     # 3. generated histories
-    nh = ctx.scale(300, 6000)
+    nh = ctx.scale(400, 8000)
     batch = 100
     done = 0
     distinct = set()
@@ -937,7 +972,8 @@ def run(ctx):
         hs = []
         for _ in range(min(batch, nh - done)):
             wild = rng.chance(3, 10)
-            hs.append(gen_history(rng.fork(), rng.range(2, ctx.scale(12, 16)), wild))
+            focus = rng.chance(1, 4)       # the "nonlocal" stream (diagnostics reported into other modules)
+            hs.append(gen_history(rng.fork(), rng.range(2, ctx.scale(12, 16)), wild, focus))
         done += len(hs)
         results = run_hists(tb, hs)
         for h, (orc, tie) in zip(hs, results):
@@ -963,10 +999,11 @@ def run(ctx):
     # 3c. the real LSP handlers over stdio
     lsp_stats = {}
     if not ctx.violations:
-        try:
-            lsp_stats = lsp_stream(ctx, tb, build_cli(), ctx.scale(12, 150))
-        except common.BuildError as e:
-            ctx.violation(f"{e.what} failed", {"broken": e.what, "log": e.log}, no_input=True)
+        cli_thread.join()
+        if "err" in cli:
+            ctx.violation(f"{cli['err'].what} failed", {"broken": cli["err"].what, "log": cli["err"].log}, no_input=True)
+        else:
+            lsp_stats = lsp_stream(ctx, tb, cli["bin"], ctx.scale(12, 150))
     # 3d. hypothesis Kinds as a fact of the current source (extract/c10_kinds.py)
     rc, kout = common.sh([os.sys.executable, os.path.join(common.VERIF, "extract", "c10_kinds.py")], env={"SAMVERIF_REPO": common.REPO})
     try:
@@ -1047,7 +1084,7 @@ def run(ctx):
                 "history with >= 2 initial files, >= 2 ops and at least one import edge",
         "samples": samples, "traces_validated_against_impl": stats["histories"],
         "ops_executed": stats["ops"], "op_histogram": stats["op_kinds"],
-        "regimes": {"clean": stats["clean"], "wild": stats["wild"]},
+        "regimes": {"clean": stats["clean"], "wild": stats["wild"], "nonlocal": stats["nonlocal"]},
         "real_checker_calls_evaluated_for_model": tb.evals,
         "frame_hypothesis_pairs_checked": getattr(tb, "frame_pairs", 0),
         "histories_matching_known_findings": stats["oracle_known"],
